@@ -123,6 +123,8 @@ func Catalogue() []Prog {
 	add("bracket-attrs", S, `<p [v-if]="keep" [:k]="raw" [@click]="go()">x</p>`, nil, nil, false)
 
 	add("file-vhtml", F, `<div v-html="html"></div><template v-html="html"></template><p v-text="title"></p><template :tv="title"><i>{{ tv }}</i></template><b :title="user.name">{{ n }}</b>`, nil, nil, false)
+	add("file-vhtml-attrs", F, `<div id="a" class="b" v-html="html"></div><p a="1" b="2" c="3" d="4" v-text="title"></p><section a="1" b="2" c="3" d="4" e="5" v-html="html"></section><article a="1" b="2" c="3" d="4" e="5" f="6" v-text="user.name"></article><aside a="1" b="2" c="3" d="4" e="5" f="6" g="7" h="8" v-html="title"></aside><h4 a="1" b="2" c="3" d="4" e="5" f="6" g="7" h="8" i="9" j="10" v-text="title"></h4>`, nil, nil, false)
+	add("include-attrs", F, `<template include="@D/c.vuego" a="1" :b="title"></template><template include="@D/c.vuego" a="1" b="2" c="3" d="4" :e="user.name"></template>`, map[string]string{"c.vuego": `<i>{{ a }}{{ b }}{{ e }}</i>`}, nil, false)
 	add("include", F, `<main><template include="@D/c.vuego" :lk_prop="n" label="L {{ title }}"></template><template include="@D/c.vuego" :lk_prop="f" label="second"></template></main>`,
 		map[string]string{"c.vuego": "---\nlk_fm: fm-value\n---\n<section><h2>{{ label }}</h2><p>{{ lk_prop }} {{ lk_fm }} {{ title }}</p></section>"}, nil, false)
 	add("include-nested", F, `<template include="@D/outer.vuego" :x="n"></template>`,
